@@ -217,21 +217,23 @@ def hash_boundary_part(chk, w2c2):
     block boundaries and padding cases), reference modules that differ from it only in the last constant, only in the first
     constant, or in every second function.  Oracle (iii): a function whose code entry is not byte-identical in the reference
     must not be classified static."""
-    def build(first, last):
+    def build(first, last, locals_=()):
         m = Module()
         for size in range(8, 301):
             k = size - 7
             body = i32_const(first(size)) + DROP + NOP * k + i32_const(last(size))
             assert len(body) + 2 == size, (size, len(body))
-            m.add_func('', 'i', (), body, export='e%d' % size if size % 50 == 0 else None)
+            m.add_func('', 'i', locals_, body, export='e%d' % size if size % 50 == 0 else None)
         return m.encode()
-    base = build(lambda s: 1, lambda s: 2)
-    refs = [('last-constant-differs', build(lambda s: 1, lambda s: 3)), ('first-constant-differs', build(lambda s: 5, lambda s: 2)),
-            ('every-second-function-differs-at-the-end', build(lambda s: 1, lambda s: 2 + (s & 1)))]
-    mybodies = body_bytes(base)
-    wd = tempfile.mkdtemp(prefix='c09h.', dir='/dev/shm')
     runs = 0
+    wd = tempfile.mkdtemp(prefix='c09h.', dir='/dev/shm')
     try:
+      # without and with declared locals (the code entry starts with the locals vector: 1 byte vs 5 bytes)
+      for lname, locs in (('', ()), (' with locals (i32)(i64 i64)', [(1, I32), (2, I64)])):
+        base = build(lambda s: 1, lambda s: 2, locs)
+        refs = [('last-constant-differs' + lname, build(lambda s: 1, lambda s: 3, locs)), ('first-constant-differs' + lname, build(lambda s: 5, lambda s: 2, locs)),
+                ('every-second-function-differs-at-the-end' + lname, build(lambda s: 1, lambda s: 2 + (s & 1), locs))]
+        mybodies = body_bytes(base)
         for rlabel, rwasm in refs:
             refbodies = set(body_bytes(rwasm))
             for opts in (['-f', '0'], ['-f', '40', '-t', '3']):
